@@ -299,6 +299,14 @@ STATE_FUNCTIONS = [
     ("driver/accessor.py", "GeckoStructAccessor._get_value"),
     ("driver/accessor.py", "GeckoTempStructAccessor._get_value"),
     ("spa.py", "GeckoSpa._on_partial_status_update"),
+    # the blocking client's session glue: hand-shake steps, the two thread bodies' hooks, the write hand-off
+    ("spa.py", "GeckoSpa.start_connect"),
+    ("spa.py", "GeckoSpa._on_config_received"),
+    ("spa.py", "GeckoSpa._loop_func"),
+    ("spa.py", "GeckoSpa._final_connect"),
+    ("spa.py", "GeckoSpa._ping_thread_func"),
+    ("spa.py", "GeckoSpa.refresh"),
+    ("spa.py", "GeckoSpa._on_set_value"),
     ("locator.py", "GeckoLocator._on_discovered"),
     ("automation/async_facade.py", "GeckoAsyncFacade._on_config_device_change"),
     # the two write paths of an item (blocking / awaitable) and the structures' hand-offs
